@@ -2245,10 +2245,15 @@ async fn handle_packet(
     if should_drop_packet() {
         return;
     }
-    inner.last_received_nanos.store(
-        inner.created_at.elapsed().as_nanos() as u64,
-        Ordering::Relaxed,
-    );
+    // Liveness (`run_keepalive_tick`): only traffic that can come from the peer counts —
+    // authenticated requests, responses to our own transactions and media. A stray or
+    // unauthenticated STUN datagram must not keep or bring the transport back to Connected.
+    let mark_received = |inner: &IceTransportInner| {
+        inner.last_received_nanos.store(
+            inner.created_at.elapsed().as_nanos() as u64,
+            Ordering::Relaxed,
+        )
+    };
     // An empty payload (zero-length TURN ChannelData / DATA attribute) carries
     // nothing to classify.
     let Some(&b) = packet.first() else {
@@ -2274,10 +2279,14 @@ async fn handle_packet(
                     // ICE state; anything else is answered but otherwise ignored.
                     let authenticated = inner.config.transport_mode != crate::TransportMode::WebRtc
                         || stun_request_authenticated(packet, &inner);
+                    if authenticated {
+                        mark_received(&inner);
+                    }
                     handle_stun_request(&sender, &msg, addr, inner, authenticated).await;
                 } else if msg.class == StunClass::SuccessResponse {
                     let mut map = inner.pending_transactions.lock();
                     if let Some(tx) = map.remove(&msg.transaction_id) {
+                        mark_received(&inner);
                         let _ = tx.send(msg);
                     } else {
                         trace!(
@@ -2307,6 +2316,7 @@ async fn handle_packet(
                     // can receive 401/438 and retry with a fresh nonce instead of timing out.
                     let mut map = inner.pending_transactions.lock();
                     if let Some(tx) = map.remove(&msg.transaction_id) {
+                        mark_received(&inner);
                         let _ = tx.send(msg);
                     }
                 }
@@ -2317,6 +2327,7 @@ async fn handle_packet(
         }
     } else {
         // DTLS or RTP
+        mark_received(&inner);
         let receiver = inner.data_receiver.lock().clone();
         if let Some(rx) = receiver {
             rx.receive(Bytes::copy_from_slice(packet), addr, marshal_buf)
